@@ -135,6 +135,16 @@ type Job struct {
 	// Sched, when set, is the JSON spec of one execution under the schedule explorer
 	// (Engine B, instrumented build only); the result comes back in Trace.Sched.
 	Sched json.RawMessage `json:",omitempty"`
+	// Free, when set, makes the worker disturb each call from free-running goroutines (real
+	// SIGWINCH to itself with alternating window sizes, real concurrent Shell.Printf). Used only by
+	// the auxiliary data-race pass (tools/race_pass.sh, -race build): sampling, never a verdict.
+	Free *FreeSpec `json:",omitempty"`
+}
+
+// FreeSpec: n disturbances of each kind, one every EveryMicros microseconds.
+type FreeSpec struct {
+	Winch, Printf int
+	EveryMicros   int
 }
 
 // Obs is what oracles read, all through the public API.
